@@ -20,18 +20,18 @@ import (
 )
 
 type (
-	Conn       = net.Conn
-	Listener   = net.Listener
-	Addr       = net.Addr
-	TCPAddr    = net.TCPAddr
-	UnixAddr   = net.UnixAddr
-	TCPConn    = net.TCPConn
-	UnixConn   = net.UnixConn
-	IP         = net.IP
-	Error      = net.Error
-	OpError    = net.OpError
-	Dialer     = net.Dialer
-	TCPListener = net.TCPListener
+	Conn         = net.Conn
+	Listener     = net.Listener
+	Addr         = net.Addr
+	TCPAddr      = net.TCPAddr
+	UnixAddr     = net.UnixAddr
+	TCPConn      = net.TCPConn
+	UnixConn     = net.UnixConn
+	IP           = net.IP
+	Error        = net.Error
+	OpError      = net.OpError
+	Dialer       = net.Dialer
+	TCPListener  = net.TCPListener
 	UnixListener = net.UnixListener
 )
 
@@ -98,10 +98,10 @@ type listener struct {
 	file             string
 }
 
-func virtual() bool {
-	x := vs.Cur()
-	return x != nil && x.Controlled()
-}
+// virtual: inside a bubble nothing may touch the real network (a goroutine
+// blocked in real I/O is not durably blocked and would stall the bubble) —
+// that includes stragglers running free during teardown.
+func virtual() bool { return vs.InBubble() }
 
 func Listen(network, address string) (net.Listener, error) {
 	if !virtual() {
@@ -390,6 +390,13 @@ func (c *conn) Write(p []byte) (int, error) {
 		dls := c.dlsig
 		c.mu.Unlock()
 		h := c.wr
+		if c.dom != nil && c.dom.Frozen.Load() {
+			// a stopped process writes nothing
+			if err := wait(h.sig, dls, dl); err != nil {
+				return total, &net.OpError{Op: "write", Net: "vnet", Err: err}
+			}
+			continue
+		}
 		h.mu.Lock()
 		if h.rclosed || h.wclosed {
 			h.mu.Unlock()
